@@ -574,6 +574,12 @@ pub fn seeds() {
     let hexs = |b: &[u8]| b.iter().map(|x| format!("{x:02x}")).collect::<String>();
     out.insert("raw".into(), json!({"key": hexs(&kp.public_key()), "sig": hexs(sig.as_bytes()), "msg": hexs(msg)}));
     out.insert("keymap".into(), serde_json::to_value(key_map()).unwrap());
+    // a PKCS#8 document as ring writes it (public key under a malformed context tag), for the ring-compat path of from_der
+    let mut ring = vec![0x30, 0x53, 0x02, 0x01, 0x01, 0x30, 0x05, 0x06, 0x03, 0x2b, 0x65, 0x70, 0x04, 0x22, 0x04, 0x20];
+    ring.extend(std::iter::repeat(1u8).take(32));
+    ring.extend([0xa1, 0x23, 0x03, 0x21, 0x00]);
+    ring.extend(kp.public_key());
+    out.insert("ringdoc".into(), json!(hexs(&ring)));
     println!("{}", Value::Object(out));
 }
 
